@@ -108,8 +108,8 @@ def mk_task(name, factories):
     return {'name': name, 'factories': factories}
 
 
-def mk_engine(tasks, style='old'):
-    return {'tasks': list(tasks), 'style': style}
+def mk_engine(tasks, style='old', layout='flat'):
+    return {'tasks': list(tasks), 'style': style, 'layout': layout}
 
 
 def task_of(eng, name):
@@ -120,7 +120,7 @@ def task_of(eng, name):
 
 
 # ------------------------------------------------------------------ source generation
-PRELUDE = '''"""generated by /verif/harness/c16_pkg.py"""
+PRELUDE_HEAD = '''"""generated by /verif/harness/c16_pkg.py"""
 import collections
 import datetime
 import importlib
@@ -129,6 +129,8 @@ import dawgie
 import dawgie.base
 
 ROOT = %(root)r
+TASK = %(task)r
+SUB = %(sub)r  # '' when classes and factories share the package module, '.bot' when split
 X_ALG = collections.namedtuple('ALG_REF', ['factory', 'impl'])
 X_SV = collections.namedtuple('SV_REF', ['factory', 'impl', 'item'])
 X_V = collections.namedtuple('V_REF', ['factory', 'impl', 'item', 'feat'])
@@ -138,13 +140,26 @@ BADVER = (1, 0, 0)
 
 
 def _m(task):
+    """the package module of a task: its factories"""
     return importlib.import_module(ROOT + '.' + task)
+
+
+def _c(task):
+    """the module holding a task's classes"""
+    return importlib.import_module(ROOT + '.' + task + SUB)
+
+
+def _b():
+    return _c(TASK)
 
 
 def _unpicklable():
     return lambda: 0
 
 
+'''
+
+PRELUDE_CLASSES = '''
 class DuckSV(dawgie.Version, dict):
     """looks like a state vector, found by name, but is not a dawgie.StateVector"""
     DAWGIE_IGNORE = True
@@ -251,8 +266,8 @@ def _ref_src(eng, ref):
     tname, kind, ri = ref['to'][0], ref['to'][1], ref['to'][2]
     si = ref['to'][3] if len(ref['to']) > 3 else 0
     vi = ref['to'][4] if len(ref['to']) > 4 else 0
-    mod = '_m(%r)' % tname
-    fac = '%s.%s' % (mod, kind if ref['factory'] == 'func' else 'cf_' + kind)
+    mod = '_c(%r)' % tname
+    fac = '_m(%r).%s' % (tname, kind if ref['factory'] == 'func' else 'cf_' + kind)
     if ref['impl'] == 'real':
         impl = '%s.%s()' % (mod, _cls_r(kind, ri))
     elif ref['impl'] == 'ghost':
@@ -261,7 +276,7 @@ def _ref_src(eng, ref):
         impl = '%s.Duck_%s_%d()' % (mod, kind, ri)
     else:
         home = ref['impl'].split(':', 1)[1]
-        impl = '_m(%r).Twin_%s_%s_%d()' % (home, tname, kind, ri)
+        impl = '_c(%r).Twin_%s_%s_%d()' % (home, tname, kind, ri)
     tgt = task_of(eng, tname)['factories'][kind]['bot']['routines'][ri]
     if ref['impl'] == 'ghost':
         si = 0  # the ghost algorithm has exactly one state vector ('ghostsv') with one key ('gk')
@@ -470,10 +485,10 @@ def _factory_src(eng, kind, f, style):
             else:
                 args.append(a if a in names else BOT_DEFAULT[a])
         if style == 'base' and f['bot']['base'] and f['bot']['list']:
-            classes = ', '.join(_cls_r(kind, ri) for ri in range(len(f['bot']['routines'])))
+            classes = ', '.join('_b().' + _cls_r(kind, ri) for ri in range(len(f['bot']['routines'])))
             body = '    return dawgie.base.%s(%s, [%s])\n' % (BOT_BASE[kind], ', '.join(args), classes)
         else:
-            body = '    return B_%s(%s)\n' % (kind, ', '.join(args))
+            body = '    return _b().B_%s(%s)\n' % (kind, ', '.join(args))
     return '\ndef %s(%s):\n%s\n' % (kind, sig, body)
 
 
@@ -490,9 +505,9 @@ def _event_src(i, t, ev):
     kind, ri = ev['to'][0], ev['to'][1]
     m = ev['moment']
     vals = {k: MOMENT_SRC[k][m[k]] for k in MOMENT_SRC}
-    fac, cls = kind, _cls_r(kind, ri)
+    fac, cls = kind, '_b().' + _cls_r(kind, ri)
     if len(ev['to']) > 2 and ev['to'][2] != t['name']:
-        fac, cls = '_m(%r).%s' % (ev['to'][2], kind), '_m(%r).%s' % (ev['to'][2], cls)
+        fac, cls = '_m(%r).%s' % (ev['to'][2], kind), '_c(%r).%s' % (ev['to'][2], _cls_r(kind, ri))
     if ev['via'] == 'schedule' and ev['isevent']:
         body = 'dawgie.schedule(%s, %s(), boot=%s, day=%s, dom=%s, dow=%s, time=%s)' % (
             fac, cls, vals['boot'], vals['day'], vals['dom'], vals['dow'], vals['time'])
@@ -526,10 +541,21 @@ def _needs(eng):
 
 
 def module_source(root, eng, task):
+    """{relative file name: source}: one file (`__init__.py`) or, with layout 'split', the factories
+    in `__init__.py` and every class in `bot.py` (the layout of the engines shipped with dawgie)"""
+    split = eng.get('layout', 'flat') == 'split'
+    head = PRELUDE_HEAD % {'root': root, 'task': task, 'sub': '.bot' if split else ''}
+    classes, factories = _module_sections(eng, task)
+    if split:
+        return {'__init__.py': head + factories, 'bot.py': head + PRELUDE_CLASSES + classes}
+    return {'__init__.py': head + PRELUDE_CLASSES + classes + factories}
+
+
+def _module_sections(eng, task):
     t = task_of(eng, task)
     style = eng.get('style', 'old')
     duck, twin, ghost, call = _needs(eng)
-    out = [PRELUDE % {'root': root}]
+    out = []
     for kind in KINDS:
         f = t['factories'].get(kind)
         if not f:
@@ -576,6 +602,7 @@ def module_source(root, eng, task):
     for (tt, kind) in sorted(ghost):
         if tt == task:
             out.append(GHOST % {'kind': kind, 'base': ROUT_BASE[kind], 'dep': DEPS[kind]})
+    classes, out = ''.join(out), []
     for kind in ALLKINDS:
         f = t['factories'].get(kind)
         if not f:
@@ -587,7 +614,7 @@ def module_source(root, eng, task):
             out.append(_factory_src(eng, kind, f, style))
         if (task, kind) in call:
             out.append(CALLABLE % {'kind': kind})
-    return ''.join(out)
+    return classes, ''.join(out)
 
 
 # ------------------------------------------------------------------ descriptor -> abstract Pkg (flags)
@@ -683,7 +710,8 @@ def ref_builds(eng, ref):
 def impl_under_factory(eng, root, ref):
     tname = ref['to'][0]
     home = ref['impl'].split(':', 1)[1] if ref['impl'].startswith('twin:') else tname
-    return ('%s.%s' % (root, home)).startswith('%s.%s' % (root, tname))
+    sub = '.bot' if eng.get('layout', 'flat') == 'split' else ''
+    return ('%s.%s%s' % (root, home, sub)).startswith('%s.%s' % (root, tname))
 
 
 B = common.sx
@@ -801,8 +829,9 @@ class Loaded:
             f.write('')
         for t in eng['tasks']:
             os.makedirs(os.path.join(self.pdir, t['name']))
-            with open(os.path.join(self.pdir, t['name'], '__init__.py'), 'w') as f:
-                f.write(module_source(self.root, eng, t['name']))
+            for fn, src in module_source(self.root, eng, t['name']).items():
+                with open(os.path.join(self.pdir, t['name'], fn), 'w') as f:
+                    f.write(src)
         self._saved = (dawgie.context.ae_base_package, dawgie.context.ae_base_path)
         dawgie.context.ae_base_package = self.root
         dawgie.context.ae_base_path = self.pdir
